@@ -96,6 +96,12 @@ package turbotunnel
 //@   at call SendQueue assert {looks-up-the-callers-address} arg1 == addr && arg0 == &m.inner
 //@   ensures q != nil
 //
+// The fields clients, recvQueue and closed are set by the constructor (proved below) and assigned nowhere else;
+// methods take their non-nil-ness as an object well-formedness assumption (`assumes`).
+//@ func NewQueuePacketConn(localAddr net.Addr, timeout time.Duration) (r *QueuePacketConn)
+//@   props C17, C05
+//@   ensures r != nil && fresh(r) && r.clients != nil && r.recvQueue != nil && r.closed != nil && !closed(r.closed) && !oncedone(&r.closeOnce)
+//
 // QueuePacketConn. closed is close-only; the connection is closed exactly once (closeOnce).
 //@ func (c *QueuePacketConn) QueueIncoming(p []byte, addr net.Addr)
 //@   props C17, C05
@@ -106,7 +112,8 @@ package turbotunnel
 //
 //@ func (c *QueuePacketConn) OutgoingQueue(addr net.Addr) (q <-chan []byte)
 //@   props C17, C05
-//@   requires c != nil && c.clients != nil
+//@   requires c != nil
+//@   assumes c.clients != nil
 //@   at call SendQueue assert {queue-of-the-callers-address} arg1 == addr && arg0 == c.clients
 //
 //@ func (c *QueuePacketConn) ReadFrom(p []byte) (n int, a net.Addr, err error)
@@ -119,7 +126,8 @@ package turbotunnel
 //@ func (c *QueuePacketConn) WriteTo(p []byte, addr net.Addr) (n int, err error)
 //@   props C17, C05
 //@   flag concurrent closeonly=closed nosafety
-//@   requires c != nil && c.clients != nil
+//@   requires c != nil
+//@   assumes c.clients != nil
 //@   at call SendQueue assert {queue-of-the-destination-address} arg1 == addr && arg0 == c.clients
 //@   at call send assert {enqueues-a-private-copy} fresh(value) && len(value) == len(p) && (forall k int :: 0 <= k && k < len(p) ==> value[k] == p[k]) && calls(SendQueue) == 1
 //@   ensures {fails-after-close} old(closed(c.closed)) ==> err != nil && calls(SendQueue) == 0
@@ -195,3 +203,9 @@ package turbotunnel
 //@   ensures {closes-at-most-once} closes(c.closed) == old(closes(c.closed)) + ite(old(closed(c.closed)), 0, 1)
 //@   ensures {second-close-reports-an-error} old(closed(c.closed)) ==> r != nil
 //@   ensures {first-close-succeeds} !old(closed(c.closed)) ==> r == nil
+//
+// kcp-go keys its session table by the textual form of the remote address: the text must cover the whole ClientID
+// (two different ClientIDs must not collapse into one session).
+//@ func (id ClientID) String() (s string)
+//@   props C05
+//@   at call EncodeToString assert {textual-form-covers-all-eight-bytes} len(arg0) == 8
